@@ -90,6 +90,11 @@ def apply_dev(world, dev, kind, subj, pid, persistent=False):
             old = world.procs[pid]
             world.vanish(pid)
             world.spawn(pid, ppid=1, comm=b"newcomer", start=old.start + 5000)
+    elif dev == "nofile":
+        # this one file is not there (any more / on this kernel) although the process is still listed and its stat readable:
+        # by itself outside the quantifier (never judged alone); the first half of "entries going, then reaped"
+        if not persistent:
+            raise oserr(errno.ENOENT, str(subj))
     elif dev in ("eacces", "eperm"):
         if not persistent:
             raise oserr(errno.EACCES if dev == "eacces" else errno.EPERM, str(subj))
@@ -237,7 +242,11 @@ def alts_for(run, i):
         # second fault: the statement quantifies over the two-fault sequences (deny at i, vanish at j > i)
         if run.plan[-1][1] in ("eacces", "eperm"):
             return ("vanish",)
+        if run.plan[-1][1] in ("zombie", "halfgone", "dying", "nofile") and pid == run.accesses[run.plan[-1][0]][2]:
+            return ("vanish",)        # ... and a process that is on its way out (zombie, entries going) is then reaped for good
         return ()
+    if kind in ("open", "readlink", "listdir") and isinstance(subj, str) and not subj.endswith("/stat"):
+        return DEVS + ("nofile",)
     return DEVS
 
 
@@ -302,6 +311,8 @@ class Oracle:
         fpids = {p for p, _ in faults}
         out = run.outcome
         tag = op.split(":")[0]
+        if "nofile" in kinds and "vanish" not in kinds:
+            return None          # (one missing file of a listed process: not a case the statement speaks about)
         if run.extra.get("later"):
             nm, o = run.extra["later"][0]
             return ("later-query-not-NSP:%s" % nm,
@@ -334,8 +345,9 @@ class Oracle:
         v = out[1]
         if not applied:
             return None
-        if "recycle" in kinds:
-            return None       # (what is read after the take-over is the newcomer's: only the error contract is judged)
+        if "recycle" in kinds or "nofile" in kinds:
+            return None       # (what is read after the take-over is the newcomer's / the fallback for a missing file is not ours to
+                              # judge: only the error contract is)
         accept = [self.base.outcome[1]] if self.base.outcome[0] == "ok" else []
         pre = [(p, d) for p, d in faults if d in ("vanish", "zombie")]
         lenient = False
@@ -361,6 +373,15 @@ class Oracle:
                         o = self.pre_value(tuple(sub))
                         if o[0] == "ok":
                             accept.append(o[1])
+        if any(p == objpid and d == "zombie" for p, d in pre) and any(p == objpid and d == "vanish" for p, d in pre) \
+                and self.base.outcome[0] == "ok":
+            # a zombie whose files read empty, reaped before psutil could confirm "zombie": the kernel's empty answer is what was
+            # published at that moment ([] / '' / {}), and there is no zombie left to report
+            b0 = self.base.outcome[1]
+            if isinstance(b0, (list, str)):
+                accept = accept + [type(b0)()]
+            elif isinstance(b0, dict) and "_nt" not in b0 and len(b0) == 1 and isinstance(list(b0.values())[0], (list, str)):
+                accept = accept + [{k: type(x)() for k, x in b0.items()}]
         if tag in ("m", "as_dict1") and op.endswith(":environ") and pre:
             # the kernel itself answers an empty read once the address space is
             # gone: {} is what was published
@@ -442,6 +463,12 @@ def ztask(arg):
     w.procs[n[who]].comm = b"sub) R (ject"        # (the state letter is what follows the LAST ')' of the stat record)
     use_world(w)
     obj = psutil.Process(n[who])
+    repoint = any(d == "repoint" for _, d in plan)
+    plan = tuple(x for x in plan if x[1] != "repoint")
+    if repoint:
+        # the program turns to another procfs tree (a container's, say) AFTER the object was made: the object keeps asking the
+        # tree it was made under, the zombie probe included
+        psutil.PROCFS_PATH = "/srv/other-procfs"
     hook = PlanHook(plan, apply_dev)
     w.hook = hook
     w.logging = False
@@ -449,6 +476,8 @@ def ztask(arg):
         out = outcome(do_op, psutil, op, obj)
     finally:
         w.hook = None
+        if repoint:
+            psutil.PROCFS_PATH = w.procfs
     kinds = {d for _, d in hook.applied}
     viol = None
     if out[0] == "exc":
@@ -475,6 +504,8 @@ def zombie_part(ctx):
     for op in Z_OPS:
         base = ztask((seed, op, "P", ()))
         tasks.append((seed, op, "P", ()))
+        if op not in ("as_dict", "m:ppid"):       # (ppid() first asks is_running(), whose probe object belongs to the NEW tree)
+            tasks.append((seed, op, "P", ((-1, "repoint"),)))
         # (only "the zombie is reaped just before access k": a refusal on top of the zombie state is a combination the
         #  statement's quantifier does not list)
         for i in range(base["n"]):
@@ -513,9 +544,10 @@ def run(ctx):
         for i in range(len(base.accesses)):
             for d in alts_for(base, i):
                 b = bound_default
-                if not ctx.thorough and op in ("m:name", "m:exe", "m:open_files", "m:threads", "children",
-                                               "parent", "m:memory_full_info", "conn:all", "m:ppid"):
-                    b = 2      # quick: pairs only for the short, fallback-rich operations
+                if not ctx.thorough and (op in ("m:name", "m:exe", "m:open_files", "m:threads", "children", "parent", "m:memory_full_info",
+                                                "conn:all", "m:ppid", "m:cwd", "m:environ", "m:memory_info", "m:uids", "m:cmdline")
+                                         or d in ("zombie", "halfgone", "dying", "nofile")):
+                    b = 2      # quick: pairs for the short, fallback-rich operations, and "on its way out, then reaped" everywhere
                 tasks.append((seed, op, who, (i, d), b))
     if ctx.thorough:
         vops = [(op, who) for op, who in ops if op in ("m:memory_full_info", "m:memory_maps", "m:memory_percent", "memory_percent:uss",
